@@ -52,13 +52,22 @@ Definition cond_head (x : string) : string :=
   end.
 Definition class_D31 (long fresh : list string) : bool :=
   let diff := filter (fun x => negb (mem_str x fresh)) long ++ filter (fun x => negb (mem_str x long)) fresh in
+  (* the parent entry is one of a Gateway that lost against the winning one: the entry says GatewayIgnored, or (when the
+     sectionName does not exist there, the entry says NoMatchingParent) the Gateway of that name carries GatewayConflict *)
+  let parent_gw x := match split_on "|"%char x with
+                     | _ :: b :: _ => match split_on "/"%char (drop 7 b) with n :: _ => n | [] => "" end
+                     | _ => ""
+                     end in
+  let conflicted n l := existsb (fun c => has_prefix "Gateway/" c && has_suffix ("/" ^^ n ^^ "||Accepted=False:GatewayConflict") c) l in
   let ignored_parent x := existsb (fun part => has_prefix "ResolvedRefs=" part) (split_on "|"%char x) &&
-                          mem_str (cond_head x ^^ "Accepted=False:GatewayIgnored") fresh &&
-                          mem_str (cond_head x ^^ "Accepted=False:GatewayIgnored") long in
+                          ((mem_str (cond_head x ^^ "Accepted=False:GatewayIgnored") fresh &&
+                            mem_str (cond_head x ^^ "Accepted=False:GatewayIgnored") long) ||
+                           (has_prefix "parent " (match split_on "|"%char x with _ :: b :: _ => b | _ => "" end) &&
+                            conflicted (parent_gw x) fresh && conflicted (parent_gw x) long)) in
   (* ... and, as a consequence of the same untracked Service, the entry of a BackendTLSPolicy that targets it (the policy counts as
      referenced only once the backend resolves) *)
   negb (match diff with [] => true | _ => false end) &&
-  existsb (fun x => has_suffix "Accepted=False:GatewayIgnored" x && mem_str x long) fresh &&
+  existsb (fun x => (has_suffix "Accepted=False:GatewayIgnored" x || has_suffix "||Accepted=False:GatewayConflict" x) && mem_str x long) fresh &&
   forallb (fun x => ignored_parent x || has_prefix "BackendTLSPolicy/" x) diff.
 
 Definition complaints_main (c : case) : list (nat * string) :=
